@@ -88,6 +88,10 @@ func lexMatches(sb *specBehaviour, rec *lexRec) bool {
 			if g.K != "punct" || !reflect.DeepEqual(w.V, g.V) {
 				return false
 			}
+		case w.K == "kw":
+			if g.K != "kw" || bytesOf(w.V) != bytesOf(g.V) {
+				return false
+			}
 		case w.K != g.K:
 			return false
 		}
